@@ -125,6 +125,8 @@ impl Family for C12 {
     let take1 = if w.get("take1_subscriber_wait").is_some() { w.i("take1_subscriber_wait") } else { -1 };
     let rec_t = Recorder::with_probes(probes);
     let count_end: Arc<Mutex<Option<usize>>> = Arc::new(Mutex::new(None));
+    let current_end: Arc<Mutex<Option<i64>>> = Arc::new(Mutex::new(None));
+    let cur2 = current_end.clone();
     let (rt2, ce2) = (rec_t.clone(), count_end.clone());
     let scripts: Vec<Vec<i64>> = counts.iter().enumerate().map(|(p, n)| (0..*n).map(|i| (p as i64 + 1) * 100 + i).collect()).collect();
     let rec_a = Recorder::with_probes(probes);
@@ -212,6 +214,13 @@ impl Family for C12 {
       }
       rt::quiesce();
       *ce2.lock().unwrap() = Some(sbj.observer_count());
+      // what a fresh subscriber is handed now = the subject's current value (BehaviorSubject)
+      if matches!(sbj, Subj::Behavior(_)) {
+        let rf = Recorder::new();
+        let s = rf.subscribe(&sbj.observable());
+        s.unsubscribe();
+        *cur2.lock().unwrap() = rf.events().first().and_then(|e| if let Ev::Next(x) = &e.ev { Some(x.int()) } else { None });
+      }
     });
     // ---- oracle
     let blame = match kind.as_str() {
@@ -473,6 +482,15 @@ impl Family for C12 {
                 v.push(Violation::new("delivered-before-subscribe", blame, format!("late subscriber {} received {} whose push had returned before subscribe started", label, g)));
               }
             }
+          }
+        }
+      }
+      // BehaviorSubject, no terminal: the value that is current once everything is quiet was stored
+      // by some push; whoever was subscribed by then has been handed it or has received it since
+      if let (None, Some(cur), true) = (&want_term, *current_end.lock().unwrap(), kind == "behavior") {
+        for (name, got, present) in [("A (steady)", &a, steady), ("B (late)", &b, stamps[0].is_some()), ("B2 (late)", &b2, stamps[1].is_some()), ("B3 (late)", &b3, stamps[3].is_some())] {
+          if present && !got.contains(&cur) {
+            v.push(Violation::new("lost", blame, format!("observer {} of a BehaviorSubject is still subscribed and has never seen {}, the value a fresh subscriber is handed once all pushes have returned: it saw {:?}", name, cur, got)));
           }
         }
       }
